@@ -116,6 +116,7 @@ type LTA struct {
 }
 
 func (w *World) runLTA() *LTA {
+	defer w.noCtx()()
 	a := &LTA{w: w, M: map[*ssa.Function]bool{}, boolIdx: map[string]int{}, memo: map[string]*lsummary{}, inprog: map[string]bool{}, findings: map[string]lfinding{}}
 	a.procT = w.Named("actor", "process")
 	a.ctxT = w.Named("actor", "Context")
